@@ -131,6 +131,23 @@ def build_model(spec):
     return M(parameters=params)
 
 
+def build_model_via_update(spec, start_spec, order_seed=0):
+    """the same model as build_model(spec), but its parameter object is first constructed with the values of ``start_spec`` (same
+    family), then assigned the final values one by one and re-initialised -- the way the calibration helpers move a model"""
+    import numpy as _np
+
+    tmp = build_model(dict(start_spec, exp=False) if start_spec["family"] != "BS" else start_spec)
+    params = tmp.parameters
+    names = list(spec["params"])
+    for k in _np.random.default_rng(order_seed).permutation(names):
+        setattr(params, str(k), spec["params"][str(k)])
+    params.initialisation()
+    full = build_model(spec)
+    if spec["family"] == "BS" or spec.get("exp"):
+        return type(full)(spot=spec["spot"], r=spec["r"], d=spec["d"], parameters=params)
+    return type(full)(parameters=params)
+
+
 def density_breakpoints(spec):
     """Points where the density has a kink / narrow bump (mathematical structure of the family, used only to
     help the quadrature oracle split its integration range)."""
